@@ -47,7 +47,7 @@ def plan(tier, seed):
         for lm in ("complete", "realistic"):
             specs.append({"layout": conv.layout_desc(L), "linkmode": lm})
     specs.sort(key=lambda s: -(len(s["layout"]["ref_lens"]) + len(gen.hap_segments(s["layout"]["pattern"]))))
-    return specs
+    return [{"many": 9001}] + specs
 
 
 BGZF3 = "bgzf3"
@@ -250,9 +250,40 @@ def prepared_files(scratch, L, lm, maxlen, res, prop):
                 yield P
 
 
+def many_records(res, scratch, n):
+    """one node selected by thousands of records (beyond any plausible output batching size), plain and converted"""
+    L = gen.Layout((2, 1), "separated2", 1)
+    g = vi.graph_for(L, "realistic")
+    base = [r for r, st in vi.walk_records(g, L, 2) if vi.traverses(g, r, "s1")]
+    urecs = []
+    for i in range(n):
+        r = base[i % len(base)]
+        urecs.append(rgfa.Rec(f"m{i}", *r.cols()[1:], opt=list(r.opt)))
+    for stable in (False, True):
+        recs = [rgfa.to_stable_model(g, r) for r in urecs] if stable else urecs
+        P = Prepared(scratch, g, L, "realistic", stable, "many", recs, "plain", "many")
+        if P.ind is None:
+            res.fail("C04/index-failed", f"index failed on a file of {n} records: {P.index_out.brief()}", {"many": n})
+            continue
+        for fmt in (None, P.fmt):
+            out, lines = run_view(P, nodes=["s1"], fmt=fmt)
+            res.evaluations += 1
+            res.nt(fw.h64(["many", n, stable, fmt]))
+            res.count("queries_selecting_thousands_of_records")
+            want = [recs[i] for i in P.touch["s1"]]  # (a stable record that collapsed to a contig interval may lie on s2 only)
+            if out.kind != "ok" or len(lines) != len(want):
+                res.fail("C04/many-records:count", f"view -n s1{' -f ' + fmt if fmt else ''} on a {'stable' if stable else 'unstable'} file of {n} records, {len(want)} of which traverse s1: {out.brief()}, {len(lines)} lines printed", {"many": n})
+            elif fmt is None and lines != [r.line() for r in want]:
+                k = next(i for i, (a, b) in enumerate(zip(lines, want)) if a != b.line())
+                res.fail("C04/many-records:content", f"view -n s1 on a file of {n} records: line {k + 1} differs from the {k + 1}-th record that traverses s1", {"many": n})
+
+
 def run_shard(spec, tier, scratch):
     res = fw.ShardResult().begin(spec, tier)
     b = bounds(tier)
+    if spec.get("many"):
+        many_records(res, scratch, spec["many"])
+        return res
     L = conv.layout_from(spec["layout"])
     for P in prepared_files(scratch, L, spec["linkmode"], b["max_steps"], res, "C04"):
         node_queries(res, P)
@@ -265,6 +296,9 @@ def run_shard(spec, tier, scratch):
 
 def replay(case, scratch, prop="C04"):
     res = fw.ShardResult()
+    if case.get("many"):
+        many_records(res, scratch, case["many"])
+        return res.failures
     L = conv.layout_from(case["layout"])
     g = vi.graph_for(L, case["linkmode"])
     recs = [rgfa.Rec.parse(l) for l in case["records"]]
